@@ -5,7 +5,7 @@
 cd /verif
 L=${1:-2}
 for ((i=0;i<L;i++)); do
-  MATRIX_LANE=$i MATRIX_LANES=$L MATRIX_WORKERS=$((16/L)) tools/seeded_matrix.sh > /tmp/matrix_lane$i.log 2>&1 &
+  MATRIX_LANE=$i MATRIX_LANES=$L MATRIX_WORKERS=${MATRIX_WORKERS:-$((16/L))} tools/seeded_matrix.sh > /tmp/matrix_lane$i.log 2>&1 &
 done
 wait
 { echo "| seeded change | outcome of ./check <property> |"; echo "|---|---|"; cat seeded/MATRIX.part* | sort | awk -F'|' '{print "| "$1" | "$2" |"}'; } > seeded/MATRIX.md
